@@ -117,6 +117,31 @@ def build(tier="quick", seed=0):
                                 replay=lambda w, kind=kind: {"call": "c10_reader", "args": {"kind": kind}}, functions=FU, mode="abstract selector (arbitrary boolean per record, all 2^3 answer vectors), source of three items"))
     pack.case_analyses.append("reader loops: sources of three items (two plus one fallback line for JSON; two tables for SQLite, batch size 2); the loop bodies do not depend on the position, the selector is arbitrary")
 
+    # ------------------------------------------------------------------ real selectors: reading with the selector == reading everything and testing each record with a fresh selector
+    REAL = ["not (r.n == 1)", "r.n == 1 or name(r) == 'c10/b'", "r.s == 'a'", "r.level == 'x' or not has_field(r, 'level')", "r.nosuch != 1"]
+
+    def th_equiv(kind, expr, form):
+        def th():
+            mk = (lambda: expr) if form == "text" else (lambda: it.call(sel.g["Selector" if form == "Selector" else "CompiledSelector"], [expr], {}))
+            rd_all, n = SOURCES[kind](None)
+            everything = list(it.iterate(rd_all))
+            want = []
+            for r in everything:
+                fresh = it.call(sel.g["CompiledSelector" if form == "CompiledSelector" else "Selector"], [expr], {})
+                if it.truth(it.call(it.getattr_(fresh, "match"), [r], {})):
+                    want.append(deep_obs(it, r))
+            rd_sel, _ = SOURCES[kind](mk())
+            got = [deep_obs(it, r) for r in it.iterate(rd_sel)]
+            return [g[:3] + (tuple(x for x in g[3] if x[0] != "_generated"),) for g in got], [w[:3] + (tuple(x for x in w[3] if x[0] != "_generated"),) for w in want]
+        return th
+
+    for kind in SOURCES:
+        for expr in REAL:
+            for form in ("text", "CompiledSelector"):
+                name = f"C10.equiv[{kind}, {expr}, {form}]"
+                pack.add(Obligation(name, lambda tier, name=name, kind=kind, expr=expr, form=form: prove_paths(name, th_equiv(kind, expr, form), lambda p: (p.value[0] == p.value[1], f"reading with the selector yields {len(p.value[0])} record(s), reading everything and filtering afterwards keeps {len(p.value[1])}"), lambda m_, p: {}),
+                                    replay=lambda w, kind=kind, expr=expr, form=form: {"call": "c10_equiv", "args": {"kind": kind, "expr": expr, "form": form}}, functions=FU, mode="representative selectors (negation, disjunction with a non-field operand, missing fields) x five readers x selector forms"))
+
     # ------------------------------------------------------------------ make_selector
     def th_make():
         mk = sel.g["make_selector"]
@@ -149,7 +174,11 @@ def build(tier="quick", seed=0):
     def th_history(expr, cls_name, order):
         def th():
             A, B, ra, rb = two_records()
-            first, second = (ra, rb) if order == "a then b" else (rb, ra)
+            if "same name" in order:
+                # an older generation of the SAME record type name with other fields (schema evolution, plain JSON / CSV readers): it lacks n and other
+                A0 = it.call(RD, ["c10/a", [("string", "s"), ("string", "t")]], {})
+                rb = it.call(A0, [], {"s": SStr(sv), "t": "a"})
+            first, second = (ra, rb) if order.startswith("a then") else (rb, ra)
             C = sel.g[cls_name]
             s1 = it.call(C, [expr], {})
             try:
@@ -169,15 +198,25 @@ def build(tier="quick", seed=0):
 
     for cls_name, exprs in (("Selector", EXPRS), ("CompiledSelector", COMPILED_OK)):
         for expr in exprs:
-            for order in ("a then b", "b then a"):
+            for order in ("a then b", "b then a", "a then same name older", "same name older then a"):
                 name = f"C10.history[{cls_name}, {expr}, {order}]"
                 pack.add(Obligation(name, lambda tier, name=name, expr=expr, cls_name=cls_name, order=order: prove_paths(name, th_history(expr, cls_name, order), lambda p: (p.value[0] == p.value[1], f"match after another record {p.value[0]} differs from a fresh selector {p.value[1]}"), lambda m_, p: {"x": model_value(m_, x), "s": model_value(m_, sv)}),
                                     replay=lambda w, expr=expr, cls_name=cls_name, order=order: {"call": "c10_history", "args": {"expr": expr, "cls": cls_name, "order": order, "x": w.get("x") if isinstance(w.get("x"), int) else 0, "s": w.get("s") if isinstance(w.get("s"), str) else ""}},
                                     functions=FU, mode="paths are explored in lock step: the same decisions drive both evaluations, so equal outcomes on every path is equality of the match result"))
 
+    def global_state():
+        """module-level mutable containers of selector.py / base.py (a match must not leave anything behind in them)"""
+        out = {}
+        for mname, mod in (("selector", sel), ("base", base)):
+            for k, v in mod.g.items():
+                if isinstance(v, (dict, list, set)) and not k.startswith("__"):
+                    out[(mname, k)] = (type(v).__name__, len(v), tuple(sorted(map(repr, v)))[:50] if not isinstance(v, list) else tuple(map(repr, v))[:50])
+        return out
+
     def th_frame(expr, cls_name):
         def th():
             A, B, ra, rb = two_records()
+            g0 = global_state()
             s1 = it.call(sel.g[cls_name], [expr], {})
             shared = [ra, rb, A, B] + [v for v in list(ra.attrs.values()) + list(rb.attrs.values()) if isinstance(v, PObj)]
             before = len(it.writes)
@@ -186,13 +225,15 @@ def build(tier="quick", seed=0):
                     it.call(it.getattr_(s1, "match"), [r], {})
                 except PyRaise:
                     pass
-            return [(o.cls.name, a) for (o, a) in it.writes[before:] if isinstance(o, PObj) and any(o is s_ for s_ in shared) and a not in CACHE_ATTRS]
+            g1 = global_state()
+            leaked = [k for k in g1 if g1[k] != g0.get(k)]
+            return [(o.cls.name, a) for (o, a) in it.writes[before:] if isinstance(o, PObj) and any(o is s_ for s_ in shared) and a not in CACHE_ATTRS] + [("module state", k) for k in leaked]
         return th
 
     for cls_name, exprs in (("Selector", EXPRS), ("CompiledSelector", COMPILED_OK)):
         for expr in exprs:
             name = f"C10.frame[{cls_name}, {expr}]"
-            pack.add(Obligation(name, lambda tier, name=name, expr=expr, cls_name=cls_name: prove_paths(name, th_frame(expr, cls_name), lambda p: (p.value == [], f"matching wrote to the record / its values / its descriptor: {p.value}"), lambda m_, p: {}),
+            pack.add(Obligation(name, lambda tier, name=name, expr=expr, cls_name=cls_name: prove_paths(name, th_frame(expr, cls_name), lambda p: (p.value == [], f"matching wrote to the record / its values / its descriptor, or left module-level state behind: {p.value}"), lambda m_, p: {}),
                                 replay=lambda w, expr=expr, cls_name=cls_name: {"call": "c10_frame", "args": {"expr": expr, "cls": cls_name}}, functions=FU))
     pack.case_analyses.append(f"{len(EXPRS)} expressions covering every node kind of the interpreted engine, the helper functions, fields(), Type matchers and missing fields x both engines x both record orders")
 
